@@ -20,7 +20,7 @@ from haiway.helpers.caching import cache  # noqa: E402
 ID = "C13"
 TECHNIQUE = "stateless schedule exploration (DFS, prefix replay) of caller starts / cancellations / invocation completions / expiry on the real async cache, reference LRU of in-flight invocations"
 RULE = (
-    "2..4 caller tasks over 1..2 keys, limit 1..2, expiration none/2, invocation outcome value/"
+    "2..4 caller tasks over 1..2 keys (cached function and cached method), limit 1..2, expiration none/2, invocation outcome value/"
     "exception, up to 2 cancellations, one clock advance past expiry; all interleavings of "
     "{start next caller, cancel caller, complete invocation, advance clock}, with and without two "
     "events in one loop iteration; non-trivial = at least two callers shared one invocation or a "
@@ -65,14 +65,20 @@ def programs(tier: str):
                                     continue
                                 if n == 4 and (batch == 2 or cancels == 2) and expiration is not None:
                                     continue  # bounded: see BOUNDS note in evidence
-                                yield {
-                                    "keys": keys,
-                                    "limit": limit,
-                                    "expiration": expiration,
-                                    "outcome": outcome,
-                                    "cancels": cancels,
-                                    "batch": batch,
-                                }
+                                for variant in ("function", "method"):
+                                    if variant == "method" and (n == 4 or (cancels == 2)):
+                                        continue
+                                    if variant == "method" and tier == "quick" and (batch == 2 or (n == 3 and expiration is not None)):
+                                        continue
+                                    yield {
+                                        "keys": keys,
+                                        "limit": limit,
+                                        "expiration": expiration,
+                                        "outcome": outcome,
+                                        "cancels": cancels,
+                                        "batch": batch,
+                                        "variant": variant,
+                                    }
 
 
 def explore_config(tier: str, program) -> dict:
@@ -88,8 +94,7 @@ def execute(program, ch: Chooser) -> Result:  # noqa: C901, PLR0912, PLR0915
     try:
         started: list[dict] = []  # invocations in start order
 
-        @cache(limit=limit, expiration=expiration)
-        async def fn(key):
+        async def body(key):
             rec = {"key": key, "n": len(started), "saw_cancel": False, "done": False}
             started.append(rec)
             try:
@@ -103,6 +108,20 @@ def execute(program, ch: Chooser) -> Result:  # noqa: C901, PLR0912, PLR0915
                 raise rec["exc"]
             rec["val"] = Produced(rec["n"])
             return rec["val"]
+
+        if program.get("variant", "function") == "method":
+
+            class Owner:
+                @cache(limit=limit, expiration=expiration)
+                async def call(self, key):
+                    return await body(key)
+
+            fn = Owner().call
+        else:
+
+            @cache(limit=limit, expiration=expiration)
+            async def fn(key):
+                return await body(key)
 
         # reference model, updated at the instant the caller invokes the cached function
         model: OrderedDict = OrderedDict()  # key -> (inv index, expire)
